@@ -355,7 +355,11 @@ func (r *connRun) writeRet(w *waiter, fail string) {
 		r.msgs.writeGate.release(w, nil)
 		r.record(fmt.Sprintf("HWriteRet %d None", id), fmt.Sprintf("WriteRet %d ok", id))
 	} else {
-		r.msgs.writeGate.release(w, errors.New(fail))
+		var werr error = errors.New(fail)
+		if fail == "EOF" {
+			werr = io.EOF // the very value a closed socket returns
+		}
+		r.msgs.writeGate.release(w, werr)
 		r.record(fmt.Sprintf("HWriteRet %d (Some %s)", id, bspec([]byte(fail))), fmt.Sprintf("WriteRet %d err %q", id, fail))
 	}
 }
@@ -446,6 +450,11 @@ func (r *connRun) readErr(eof bool) {
 func (r *connRun) close() {
 	err := r.conn.Close()
 	r.closeRets = append(r.closeRets, err == nil)
+	if !r.closed && err != nil {
+		// the first Close is what ends the connection for its outstanding callers: it must go through
+		r.e.fail("C03-close-does-not-close", fmt.Sprintf("the first Conn.Close returned %v and left the codec open: calls still outstanding are never failed", err), r.replay())
+		r.e.fail("C20-first-close", fmt.Sprintf("first Conn.Close returned %v", err), r.replay())
+	}
 	if r.closed && err != rpc.ErrShutdown {
 		r.e.fail("C20-second-close", fmt.Sprintf("second Conn.Close returned %v, want ErrShutdown", err), r.replay())
 	}
@@ -530,7 +539,8 @@ func (r *connRun) choices(prop string) []choice {
 			}
 			errT := ""
 			if e.Rng.Intn(4) == 0 || (prop == "C06" && e.Rng.Intn(2) == 0) {
-				errT = []string{"boom", "The connection is shut down", "can't find service S.M", string(genUTF8(e, 1+e.Rng.Intn(300)))}[e.Rng.Intn(4)]
+				errT = []string{"boom", "The connection is shut down", "can't find service S.M", string(genUTF8(e, 1+e.Rng.Intn(300))),
+					"relay: The connection is shut down (upstream)", "The connection is shut down."}[e.Rng.Intn(6)]
 			}
 			cs = append(cs, choice{wgt, func() { r.arrive("resp", c, errT, body) }, "arrive"})
 		}
@@ -798,6 +808,10 @@ func runConn(work, prop string) {
 	}
 	if prop == "C06" {
 		errorTextSweep(e)
+		linkNotPoisoned(e)
+	}
+	if prop == "C02" {
+		goNilDone(e)
 	}
 	e.Res.Rule = "corpus of scripted witness traces in all four client modes (directIO x pipelining), then seeded random walks over the enabled gated actions (start Go/Call/RoundTrip/CallWithContext/Ping, write returns ok/error, response/duplicate/unknown/undecodable frame arrives, header decode, body decode, read fails EOF/error, Close, context cancel) of 4..17 actions, each followed by a teardown that ends the connection; observables compared with the model after every action; non-trivial = distinct (mode, action-shape sequence)"
 	names := writeCases(work, "From Coq Require Import List. Import ListNotations. From RPC Require Import Hex RunConn. From RPC.Conn Require Import Model.", "ccase", cases, 40)
